@@ -385,7 +385,7 @@ def _post_defaults_not_posonly(c):
 ASSUMES = ["A-PY", "A-INST"]
 NOT_COVERED = [
     "positional-only parameters: Acc is CPython's binding rule for signatures without them; see known findings F-C11a / F-C11c",
-    "_validate_params_with_signature (fallback path), validate_params' dispatch and NodeMeta.wrapper_render's non-identifier split are not under contract; the fallback validator and its agreement with the proved one are covered only by the BOUNDED stand-in bounded#both_validators_agree_with_the_python_call (stated grammar, never counted as proved)",
+    "_validate_params_with_signature (fallback path), and validate_params' dispatch are not under contract (NodeMeta.wrapper_render is: contracts/c11b.py); the fallback validator and its agreement with the proved one are covered only by the BOUNDED stand-in bounded#both_validators_agree_with_the_python_call (stated grammar, never counted as proved)",
     "that Acc equals CPython's acceptance is the definition used here (closed form of the documented binding algorithm), cross-checked by the thorough-tier differential only",
 ]
 
@@ -445,3 +445,5 @@ def _bounded_validators(tier, repo):
 
 REG.bounded_check("bounded#both_validators_agree_with_the_python_call", P, _bounded_validators,
                   note="BOTH validators (the proved _validate_params_with_code and the fallback _validate_params_with_signature, which is not under contract) against CPython's own binding of the call, exhaustively over a stated grammar of signatures and tag argument lists")
+
+import contracts.c11b  # noqa: E402,F401  (NodeMeta.wrapper_render)
